@@ -279,6 +279,9 @@ func tokenizeForSemantics(content string) []semanticToken {
 	afterPipe := false
 	currentLine := -1
 	lineStart := 0
+	// UTF-16 column of content[colOffset] on the current line, advanced token
+	// by token so that a long line is measured once, not once per token
+	colOffset, colUnits := 0, 0
 
 	for {
 		tok := lexer.Next()
@@ -289,6 +292,7 @@ func tokenizeForSemantics(content string) []semanticToken {
 		if tok.Pos.Line != currentLine {
 			currentLine = tok.Pos.Line
 			lineStart = tok.Pos.Offset - byteOffsetOfColumn(content, tok.Pos)
+			colOffset, colUnits = lineStart, 0
 			inHeader = false
 			afterPipe = false
 			isPayee = false
@@ -358,7 +362,12 @@ func tokenizeForSemantics(content string) []semanticToken {
 		}
 		// positions and lengths are in UTF-16 code units of the source text
 		line := uint32(tok.Pos.Line - 1)
-		col := uint32(lsputil.UTF16Len(content[lineStart:tok.Pos.Offset]))
+		if tok.Pos.Offset < colOffset {
+			colOffset, colUnits = lineStart, 0
+		}
+		colUnits += lsputil.UTF16Len(content[colOffset:tok.Pos.Offset])
+		colOffset = tok.Pos.Offset
+		col := uint32(colUnits)
 		raw := strings.TrimRight(content[tok.Pos.Offset:tok.End.Offset], " \t\r")
 
 		// Handle comments with tags - extract tag tokens
